@@ -401,7 +401,36 @@ def witnesses(ctx):
         ctx.disagree("C10:is_coplanar:dependent-prefix", desc, False, r[1:3], replay=[desc])
 
 
+def collinear_collections(ctx, n):
+    """is_collinear with more than n arguments on collections whose positions differ: at one position already the first three
+    points are in general position, at another the first three are collinear and only a later argument is off, at a third all
+    are collinear - every position is answered on its own"""
+    import geometer as g
+    rng = ctx.rng
+    for k in range(n):
+        def line_pts(m, off_at=None):
+            a = np.array([float(rng.randint(-3, 3)), float(rng.randint(-3, 3)), 1.0])
+            d = np.array([float(rng.randint(1, 3)), float(rng.randint(-2, 2)), 0.0])
+            pts = [a + t * d for t in rng.sample([-2, -1, 0, 1, 2, 3], m)]
+            if off_at is not None:
+                pts[off_at] = pts[off_at] + np.array([0.0, 1.0, 0.0]) * (1 if d[0] else 0) + np.array([1.0, 0.0, 0.0]) * (0 if d[0] else 1)
+            return pts
+        m = rng.choice([4, 5])
+        rows = [line_pts(m, off_at=rng.randrange(3)), line_pts(m, off_at=rng.randrange(3, m)), line_pts(m)]
+        exp = [False, False, True]
+        order = [0, 1, 2]
+        rng.shuffle(order)
+        cols = [g.PointCollection(np.array([rows[i][j] for i in order])) for j in range(m)]
+        desc = f"is_collinear of {m} point collections, rows {[[p.tolist() for p in rows[i]] for i in order]}"
+        ctx.case(desc)
+        ctx.count("is_collinear:mixed-collection")
+        r = call_impl(lambda: np.asarray(g.is_collinear(*cols)).tolist())
+        if r[0] != "ok" or r[1] != [exp[i] for i in order]:
+            ctx.disagree("C10:is_collinear:mixed-collection", desc, [exp[i] for i in order], r[1:3], replay=[desc])
+
+
 def correspondence(ctx):
+    collinear_collections(ctx, ctx.budget(30, 300))
     witnesses(ctx)
     hyper_stream(ctx, ctx.budget(300, 5000))
     line3_stream(ctx, ctx.budget(120, 2000))
